@@ -3,7 +3,7 @@ HOOKS = {
     "guard": "verif",
     "enable": "go build -tags verif (harness under /verif/harness and the CLI binaries are built with the tag)",
     "baseline_off_cmd": "cd /repo && go build ./... && go test -vet=off -count=1 -timeout 25m ./...",
-    "source_commits": ["55a9764"],
+    "source_commits": ["55a9764", "ed688b0"],
     "add_only": True,
 }
 ENGINES = [
